@@ -252,6 +252,51 @@ class _ArmJac(ArmC):
         g.eq('J_body = Ad(inv(T)) J_space' + z, Jb, S.mm(S.Ad(S.inv_SE3(T1.gTM())), Js), tol=5e-6)
 
 
+class _ArmToolJac(ArmC):
+    """tool change then Jacobians (C06 'including after move and tool change'): after setArbitraryHome and after
+    restoreOriginalEE the stored body screws are Ad(inv(current home)) of the stored space screws, and
+    jacobianBody = Ad(inv(T)) jacobian at the current tool pose"""
+    prop = 'C06'
+    target = ARM + ':Arm.setArbitraryHome'
+    under_contract = (ARM + ':Arm.restoreOriginalEE', ARM + ':Arm.jacobianBody', MR + ':JacobianBody')
+
+    def run(self, g, fn, args, kwargs):
+        fx = ArmFixture(g, self.n, base_identity=True, fixed_geometry=self.fixed_geometry)
+        if self.fixed_geometry:
+            # a fixed rational tool pose (rotation about z by atan2(4, 3), then about x by atan2(5, 12))
+            from fractions import Fraction as Fr
+            rows = [[Fr(3, 5), Fr(-48, 65), Fr(4, 13), Fr(5, 4)], [Fr(4, 5), Fr(36, 65), Fr(-3, 13), Fr(-1, 2)],
+                    [Fr(0), Fr(5, 13), Fr(12, 13), Fr(3, 4)], [Fr(0), Fr(0), Fr(0), Fr(1)]]
+            if g.symbolic:
+                Mh = S.arr([[T.SR.const(x) for x in r] for r in rows])
+            else:
+                Mh = _np.array([[float(x) for x in r] for r in rows])
+            new_home = g.module(TMM).tm(Mh.copy())
+        else:
+            new_home, Mh = frame(g, 'N')
+        th = fx.thetas(g)
+        a = fx.arm
+        a.setArbitraryHome(new_home, th.copy())
+        H1 = a._end_effector_home.gTM().copy()
+        B1 = a.screw_list_body.copy()
+        T1 = a.FK(th.copy()).gTM().copy()
+        Js1, Jb1 = a.jacobian(th.copy()), a.jacobianBody(th.copy())
+        z1 = zone(g)
+        a.restoreOriginalEE()
+        H2 = a._end_effector_home.gTM().copy()
+        B2 = a.screw_list_body.copy()
+        return fx, (H1, B1, T1, Js1, Jb1, z1), (H2, B2)
+
+    def post(self, g, out, args, kwargs):
+        fx, (H1, B1, T1, Js1, Jb1, z1), (H2, B2) = out
+        a = fx.arm
+        g.eq('after setArbitraryHome: body screws = Ad(inv(new home)) space screws' + z1, B1,
+             S.mm(S.Ad(S.inv_SE3(H1)), a.screw_list))
+        g.eq('after setArbitraryHome: J_body = Ad(inv(T)) J_space' + z1, Jb1, S.mm(S.Ad(S.inv_SE3(T1)), Js1), tol=5e-6)
+        g.eq('after restoreOriginalEE: body screws = Ad(inv(home)) space screws', B2,
+             S.mm(S.Ad(S.inv_SE3(H2)), a.screw_list))
+
+
 class _ArmJacDeriv(ArmC):
     """the space Jacobian is the derivative of forward kinematics: vee(dT/dtheta_j T^-1) = J[:, j]
     (forward-mode differentiation of the executed FK code on dual numbers)"""
@@ -416,6 +461,7 @@ _mk('Arm_move', _ArmMove, tiers={1: 'thorough', 2: 'thorough'})
 _mk('Arm_tool_change', _ArmTool, ns=(1,), tiers={1: 'thorough'})
 _mk('Arm_jacobians_fixed_geometry', _ArmJac, ns=(2,), fixed_geometry=True)
 _mk('Arm_jacobians', _ArmJac, tiers={1: 'thorough', 2: 'thorough'})
+_mk('Arm_tool_change_jacobians_fixed_geometry', _ArmToolJac, ns=(1, 2), tiers={1: 'quick', 2: 'thorough'}, fixed_geometry=True)
 _mk('Arm_jacobian_is_derivative_fixed_geometry', _ArmJacDeriv, ns=(2,), fixed_geometry=True)
 _mk('Arm_jacobian_is_derivative', _ArmJacDeriv, tiers={1: 'thorough', 2: 'thorough'})
 _mk('Arm_statics_fixed_geometry', _ArmStatics, ns=(2,), fixed_geometry=True)
